@@ -50,7 +50,9 @@ class Packer(object):
         self._obj = deepcopy(obj, memo)
 
         # caches
-        self._params_tensor_list: Optional[List[torch.Tensor]] = tensor_lists
+        # (listed from the copy, which is what the constructors refill: an object's
+        # copy protocol may restore its attributes in another order)
+        self._params_tensor_list: Optional[List[torch.Tensor]] = _extract_tensors(self._obj)
         self._unique_params_idxs: Optional[List[int]] = None
         self._unique_inverse_idxs: Optional[List[int]] = None
         self._unique_tensor_shapes: Optional[List[torch.Size]] = None
